@@ -1,0 +1,65 @@
+// Copyright (c) 2026, Daniel Martí <mvdan@mvdan.cc>
+// See LICENSE for licensing information
+
+//go:build verif && !js
+
+package interp
+
+import (
+	"io"
+	"os"
+
+	"golang.org/x/term"
+)
+
+// With the "verif" build tag, the runner's standard input is an interface,
+// just like on js/wasm, so that a simulation harness can supply pipes whose
+// blocking and readiness it controls. Without installed hooks, the
+// behavior is the same as in stdin_os.go.
+type stdinFile = VerifFile
+
+func newPipe() (stdinFile, io.WriteCloser, error) {
+	if h := VerifSim; h != nil {
+		return h.NewPipe()
+	}
+	pr, pw, err := os.Pipe()
+	if err != nil {
+		return nil, nil, err
+	}
+	return pr, pw, nil
+}
+
+func newStdinFile(r io.Reader) (stdinFile, error) {
+	switch r := r.(type) {
+	case *os.File:
+		return r, nil
+	case nil:
+		return nil, nil
+	default:
+		if h := VerifSim; h != nil {
+			return h.WrapStdin(r)
+		}
+		pr, pw, err := os.Pipe()
+		if err != nil {
+			return nil, err
+		}
+		go func() {
+			io.Copy(pw, r)
+			pw.Close()
+		}()
+		return pr, nil
+	}
+}
+
+func stdinTerminal(stdin stdinFile) (int, bool) {
+	f, _ := stdin.(*os.File)
+	if f == nil {
+		return -1, false
+	}
+	fi, err := f.Stat()
+	if err != nil || fi.Mode()&os.ModeCharDevice == 0 {
+		return -1, false
+	}
+	fd := int(f.Fd())
+	return fd, term.IsTerminal(fd)
+}
